@@ -35,7 +35,7 @@ ASSUMPTIONS = [
     "diff_jobs compares (key, value) pairs with Python equality (1 == 1.0 == True), as the statement says",
 ]
 
-VALUES = [1, 1.0, True, 0, False, 0.0, -0.0, "1", None, [1, 2], [1.0, 2], [], {"x": 1}, {}, 2, "ab",
+VALUES = [1, 1.0, True, 0, False, 0.0, -0.0, -1, -1.0, -2, -2.0, "1", None, [1, 2], [1.0, 2], [], {"x": 1}, {}, 2, "ab",
           [{"x": 1, "y": 2}], [{"y": 2, "x": 1}], [1, [2, 3]], ["a", {"x": 1}, []]]  # the last two: equal lists of mappings written in different key order
 KEYS = ["a", "b", "n", "l", "s", "pressure", "sp_x", "ps"]  # incl. names starting with the letters of the internal "sp." prefix
 
